@@ -356,6 +356,21 @@ func evalToken(line string) (out string, rd string) {
 			}
 			return dumpInv(t), rd
 		}
+	case "go.tok.honest":
+		b := []byte(unhx(f[2]))
+		var err error
+		switch f[1] {
+		case "any":
+			_, _, err = token.FromSealed(b)
+		case "dlg":
+			_, _, err = delegation.FromSealed(b)
+		case "inv":
+			_, _, err = invocation.FromSealed(b)
+		}
+		if err != nil {
+			return "an honest token with the specification's varsig header is refused: " + err.Error(), line[:40]
+		}
+		return "ok", line[:40]
 	case "go.tok.roundtrip":
 		return tokRoundTrip(f[1], f[2], f[3]), line
 	case "go.tok.concurrent":
@@ -491,6 +506,14 @@ func runTokenStream(c *ctx) error {
 				return err
 			}
 			c.emitSealed(all, b, "honest")
+			// the same honest token — built by the harness with the varsig header THE SPECIFICATION gives for the key type — must be
+			// accepted whatever the library's own table (and the model regenerated from it) says
+			for _, d := range all {
+				if (kind.tag == dlgTag && d == "inv") || (kind.tag == invTag && d == "dlg") {
+					continue
+				}
+				c.emit(fmt.Sprintf("go.tok.honest %s %s", d, hx(b)), "token.honest-spec:"+alg, true, "honest-spec:"+alg)
+			}
 			if ai > 0 && !c.thoro {
 				c.envelopeCore(all, alg, k, hdr, kind.tag, kind.fs, mk)
 				continue
@@ -620,6 +643,9 @@ func runTokenStream(c *ctx) error {
 	// added afterwards, the shared set growing in between: each token seals and unseals with exactly its own arguments
 	for n := 0; n <= 9; n++ {
 		c.emit(fmt.Sprintf("go.tok.sharedargs %d", n), "token.roundtrip-shared", true, "sharedargs")
+		// (the same check under the class of "values a caller supplies are stored exactly": what the caller does with ITS argument
+		// set after the constructor returned does not reach the token)
+		c.emit(fmt.Sprintf("go.tok.sharedargs %d again", n), "literal.exact-shared", true, "sharedargs")
 	}
 	// (roundtrip) constructor-built tokens
 	rtAlgs := []string{"ed25519", "secp256k1", "p256", "p384", "p521", "rsa"}
@@ -627,7 +653,7 @@ func runTokenStream(c *ctx) error {
 	for _, alg := range rtAlgs {
 		for _, kind := range []string{"dlg", "inv"} {
 			// bits 7–9 (early instants, audience = subject, integral floats): a few masks per algorithm
-			for _, m := range []int{128, 129, 256, 257, 384, 128 + 16, 256 + 8, 512, 513, 512 + 2 + 4, 1024, 1025, 1026, 1024 + 3, 2048, 2049, 4096, 4097, 4096 + 2, 8192, 8193, 8192 + 2, 8192 + 1 + 2 + 4, 16384, 16385, 16386, 16384 + 4, 16384 + 5, 16384 + 32, 16384 + 1 + 4} {
+			for _, m := range []int{128, 129, 256, 257, 384, 128 + 16, 256 + 8, 512, 513, 512 + 2 + 4, 1024, 1025, 1026, 1024 + 3, 2048, 2049, 4096, 4097, 4096 + 2, 8192, 8193, 8192 + 2, 8192 + 1 + 2 + 4, 16384, 16385, 16386, 16384 + 4, 16384 + 5, 16384 + 32, 16384 + 1 + 4, 16384 + 3, 16384 + 3 + 8} {
 				if !c.thoro && alg != "ed25519" && alg != "p256" {
 					continue
 				}
@@ -1072,8 +1098,11 @@ func tokRoundTrip(kind, alg, ms string) string {
 			// sub-second part of more than half a second (written as the second it lies in)
 			if mask%2 == 0 {
 				opts = append(opts, invocation.WithInvokedAt(time.Unix(9007199254740992, 0)))
-			} else {
+			} else if mask%4 == 1 {
 				opts = append(opts, invocation.WithInvokedAt(time.Unix(1900000000, 600000000)), invocation.WithExpiration(time.Unix(2000000000, 700000000)))
+			} else {
+				// instants BEFORE 1970 with a sub-second part: the second they lie in is the one below (−1.5 s lies in second −2)
+				opts = append(opts, invocation.WithInvokedAt(time.Unix(-2, 500000000)), invocation.WithExpiration(time.Unix(-1001, 700000000)))
 			}
 		}
 		if opt(12) {
@@ -1232,11 +1261,17 @@ func tokSharedArgs(n int) (out string) {
 		toks = append(toks, t)
 	}
 	_ = common.Add("later", int64(-1))
+	// every token is sealed BEFORE the first one is unsealed: a sealed form stays what it was while other tokens are sealed
+	var sealedAll [][]byte
 	for j, t := range toks {
 		sealed, _, err := t.ToSealed(k.priv)
 		if err != nil {
 			return fmt.Sprintf("token %d: ToSealed: %v", j, err)
 		}
+		sealedAll = append(sealedAll, sealed)
+	}
+	for j, t := range toks {
+		sealed := sealedAll[j]
 		back, _, err := invocation.FromSealed(sealed)
 		if err != nil {
 			return fmt.Sprintf("token %d: FromSealed rejects a token it sealed: %v", j, err)
